@@ -99,10 +99,10 @@ def obligations(tier):
     obs.append(Ob('O4.5-ordinals-api', 'fn', 'harness.C04ord:ordinals_api', slices=[{'lang': l, 'hi': hi} for l in ('italian', 'german', 'dutch')], timeout=t,
                   descr='ordinals of the compound-word cultures through the public ordinal model (small-scope enumeration through the API, every n of the range; not a solver verdict): the one-word ordinal an independent speller writes for n '
                         'is one entity with value n',
-                  bounds='n = 1..%d per culture (Italian, German, Dutch); Italian x10th / x000th (own forms) not generated; regions of F59 (Italian) and F60 (German) searched separately' % hi,
+                  bounds='n = 1..%d per culture (Italian, German, Dutch); Italian x10th / x000th (own forms) not generated; region of F59 (Italian) and of the repaired F60 (German 40th..49th) searched separately' % hi,
                   encodes=['recognizers_number.number.parsers:BaseNumberParser._get_text_number_regex', 'recognizers_number.number.parsers:BaseNumberParser._text_number_parse']))
-    obs.append(Ob('O4.5-ordinals-known-it', 'fn', 'harness.C04ord:ordinals_api', slices=[{'lang': 'italian', 'hi': hi, 'region': 'known'}], timeout=t, finding='F59', descr='region of finding F59 (Italian ordinals above 100 ending in -undicesimo / -tredicesimo / -centesimo)'))
-    obs.append(Ob('O4.5-ordinals-known-de', 'fn', 'harness.C04ord:ordinals_api', slices=[{'lang': 'german', 'hi': hi, 'region': 'known'}], timeout=t, finding='F60', descr='region of finding F60 (German ordinals 40th..49th)'))
+    obs.append(Ob('O4.5-ordinals-known-it', 'fn', 'harness.C04ord:ordinals_api', slices=[{'lang': 'italian', 'hi': hi, 'region': 'known'}], timeout=t, finding='F59', descr='region of the repaired finding F59 (Italian ordinals above 100 ending in -undicesimo / -tredicesimo / -centesimo): a reappearance is a violation'))
+    obs.append(Ob('O4.5-ordinals-known-de', 'fn', 'harness.C04ord:ordinals_api', slices=[{'lang': 'german', 'hi': hi, 'region': 'known'}], timeout=t, finding='F60', descr='region of the repaired finding F60 (German ordinals 40th..49th): a reappearance is a violation'))
     return obs
 
 
